@@ -100,7 +100,7 @@ Qed.
 
 (* the known finding: a header-serialisation error leaves garbage / nothing on an open connection *)
 Definition env0 : env := mkEnv (b "S") (b "D") (fun _ => []).
-Definition q_get11 : req := mkReq GET V11 None None NoBody false false.
+Definition q_get11 : req := mkReq GET V11 None None NoBody false false WSync.
 
 Lemma hdr_err_witness :
   let s := run env0 q_get11 [SetH (b "Bad Name") (b "v"); Flush] in
